@@ -1,6 +1,7 @@
 package main
 
 import (
+	"strings"
 	"verifharness/internal/evid"
 	"verifharness/internal/gw"
 )
@@ -97,6 +98,13 @@ func init() {
 				{P: P("S7", 165, 3, 2, 0, 1, false)},
 				{P: P("S8", 1400, 3, 3, 0, 1, false), Need: []string{"ClosureDiverged"}},
 				{P: P("S9", 170, 3, 3, 0, 1, false), Need: []string{"ClosureDiverged", "TruncatedDeltas"}},
+				// membership: a live node that was suspected and swept by a peer is
+				// found again and its state converges like everybody else's
+				{P: P4(3, 2, 0, 0, 1, 1, false), Need: []string{"ClosureDiverged", "Unreachables"}},
+				// ... also when nobody else is left to re-introduce it (two nodes; three
+				// nodes where both others swept it)
+				{P: P4(2, 2, 0, 0, 1, 1, false), Need: []string{"ClosureDiverged", "Unreachables"}},
+				{P: P4(3, 1, 0, 0, 2, 2, false), Need: []string{"ClosureDiverged", "Unreachables"}},
 			}
 		} else {
 			d := sec(600)
@@ -147,6 +155,15 @@ func init() {
 		}
 		runGossip(run, "C11", jobs)
 		c11DetectorLoop(run, "C11")
+		// "restored when heard from again" presupposes that a flagged node is
+		// still spoken to: the real gossipRound, every combination of peer classes
+		cases, probs := gw.CheckGossipRound()
+		for _, p := range probs {
+			if strings.Contains(p, "unreachable") {
+				run.Violation("C11", "unreachable-peer-never-probed", p, map[string]any{"engine": "E1-round", "problem": p})
+			}
+		}
+		run.Set("gossip_round_cases", cases)
 		schedPass(run)
 		return run.Finish()
 	})
@@ -159,6 +176,9 @@ func init() {
 				{P: P("S6", 165, 3, 3, 0, 1, false), Need: []string{"RelayLearned", "TruncatedDeltas"}},
 				{P: P("S6", 165, 2, 3, 0, 1, true), Need: []string{"LeavesSeen", "Unreachables", "Relearned"}},
 				{P: P("S6", 1400, 3, 2, 0, 0, true), Need: []string{"LeavesSeen"}},
+				// endpoint ids of different lengths (negative size = the S6x variant)
+				{P: P("S6", -200, 3, 3, 0, 1, false), Need: []string{"TruncatedDeltas", "RelayLearned"}},
+				{P: P("S6", -230, 3, 3, 0, 1, false), Need: []string{"TruncatedDeltas", "RelayLearned"}},
 				// four owner operations: a compaction with a live endpoint newer than the newest tombstone
 				{P: P("S6", 1400, 4, 3, 0, 1, false), Need: []string{"RelayLearned", "MarkersApplied"}},
 			}
